@@ -148,7 +148,7 @@ func c12BoundedPasses(c *Ctx) {
 		fn := fs.Fn
 		switch {
 		case isZeroConst(fs.Store.Val):
-			gg := newIG(m, fn, nil)
+			gg := scanIG(m, fn, nil)
 			sn := gg.Idx[fs.Store]
 			if fn == reloc {
 				idx := paramNamed(reloc, "objIndex")
